@@ -195,6 +195,9 @@ pub struct HistSpec {
     pub lock_window: bool,
     /// also enumerate crashes during the recovery of every crash image
     pub nested: bool,
+    /// hand-picked shape (not part of an enumerated family): explored first, so
+    /// that a wall cap on a slow machine cuts the enumerated tail, not these
+    pub fixed: bool,
 }
 
 fn svio(spec: &HistSpec, key: &str, what: String, extra: Value) -> Violation {
@@ -1773,6 +1776,7 @@ pub fn replay(prop: &str, r: &Value) -> i32 {
         max_executions: 1,
         lock_window: r["lock_window"].as_bool().unwrap_or(false),
         nested: false,
+        fixed: false,
     };
     let schedule: Vec<(usize, String)> = r["extra"]["schedule"]
         .as_array()
